@@ -113,9 +113,10 @@ def FStack.addEmptyPrefix (s : FStack) (ns : Nat) : FStack :=
 
 def FStack.isNamespaceKnown (s : FStack) (ns : Nat) : Bool := s.top.any (fun (_, n) => n == ns)
 
-/-- `has_default_namespace`: the empty prefix is bound to a real namespace in the top frame. -/
+/-- `has_default_namespace`: some entry of the top frame binds the empty prefix to a namespace
+    other than the no-namespace id. -/
 def FStack.hasDefaultNamespace (s : FStack) : Bool :=
-  s.top.any (fun (p, n) => p == Env.emptyPrefix && n != Env.noNamespace)
+  s.top.any (fun d => d.1 == Env.emptyPrefix && d.2 != Env.noNamespace)
 
 def FStack.hasEmptyPrefix (s : FStack) (ns : Nat) : Bool :=
   elementPrefixByNamespace s.top ns == some Env.emptyPrefix
